@@ -75,20 +75,7 @@ def parseExts (s : String) : List Extent :=
     | [a, b, c] => some ⟨a, b, c⟩
     | _ => none
 
-/-- the allocator the real calls meet: the fast path of allocateExtents over the block bitmaps (first run of
-    at least n clear bits in the lowest group), refused when the superblock counts fewer than n free blocks -/
-structure BmState where
-  groups : List Alloc.Bits
-  sbfree : Nat
-
-def bmAlloc (fdb bpg : Nat) : Allocator BmState where
-  take s n :=
-    if s.sbfree < n then none else
-    match Alloc.fastPick s.groups n with
-    | none => none
-    | some (g, p) =>
-      some (fdb + g * bpg + p,
-        { groups := (s.groups.zipIdx).map (fun x => if x.2 = g then Alloc.setRun x.1 p n else x.1), sbfree := s.sbfree - n })
+/-! the allocator the real calls meet: `bmAlloc` of Model/Ext4/ExtTreeInv.lean (laws: `exttree_bmalloc_ok`) -/
 
 /-- runs "p+c,p+c" → bits of length `len` (true = in use) -/
 def bitsOfRuns (len : Nat) (s : String) : Alloc.Bits :=
